@@ -457,6 +457,12 @@ func call(fn reflect.Value, args []interface{}, argTerms []*term.Term) (out inte
 			continue
 		}
 		if !av.Type().AssignableTo(pt) {
+			if i < len(argTerms) && term.IsNum(pt) && (argTerms[i].K == term.KBinary || argTerms[i].K == term.KUnary) {
+				// integer arithmetic as argument of a numeric parameter: the
+				// library retypes its literals to the parameter's kind; what
+				// that means for the operands is not settled by the definition
+				unspec("arithmetic argument for a numeric parameter of another kind")
+			}
 			fail(FailType, "%T not assignable to %v", a, pt)
 		}
 		in[i] = av
